@@ -16,7 +16,8 @@ typing_ref.templates()
 
 N = envint("VF_N", 4)          # max length of the symbolic string
 NMIN = envint("VF_NMIN", 0)
-PRE = envstr("VF_PRE", "")   # concrete prefix: the string under test is PRE + t    # min length (partitions)
+PRE = envstr("VF_PRE", "")   # concrete prefix / suffix: the string under test is PRE + t + SUF
+SUF = envstr("VF_SUF", "")
 TYPE_NAMES = list(conf.sid_templates.keys()) + ["bogus", ""]
 TI = envint("VF_TI", 0)        # index into TYPE_NAMES for the uri family
 
@@ -57,7 +58,7 @@ def total(t: str) -> bool:
     pre: NMIN <= len(t) <= N
     post: _
     """
-    s = PRE + t
+    s = PRE + t + SUF
     sid = Sid(s)
     return isinstance(sid, Sid)
 
@@ -69,7 +70,7 @@ def oracle(t: str) -> bool:
     pre: '?' not in t and ':' not in t
     post: _
     """
-    s = PRE + t
+    s = PRE + t + SUF
     sid = Sid(s)
     exp_type, exp_fields = typing_ref.type_string(s)
     return _check_against_oracle(sid, s, exp_type, exp_fields)
@@ -83,7 +84,7 @@ def uri(t: str) -> bool:
     pre: '?' not in t and ':' not in t
     post: _
     """
-    s = PRE + t
+    s = PRE + t + SUF
     t = TYPE_NAMES[TI]
     sid = Sid(t + ":" + s)
     if t == "":
@@ -100,7 +101,7 @@ def colons(t: str) -> bool:
     pre: '?' not in t
     post: _
     """
-    s = PRE + t
+    s = PRE + t + SUF
     sid = Sid(s)
     if not sid.type:
         return sid.fields == {} and len(sid) == 0 and not bool(sid)
@@ -114,6 +115,6 @@ def reach_typed(t: str) -> bool:
     pre: '?' not in t and ':' not in t
     post: _
     """
-    s = PRE + t
+    s = PRE + t + SUF
     sid = Sid(s)
     return not (sid.type != "" and len(sid) >= 3)
